@@ -147,9 +147,16 @@ func cborEntries(b []byte) ([][]byte, error) {
 	if it == nil || it.Done() {
 		return nil, fmt.Errorf("not a container map")
 	}
-	_, l, err := it.Next()
-	if err != nil {
-		return nil, err
+	// the token list sits under the ctn- key (an earlier damage may have added another key)
+	var l ipld.Node
+	for !it.Done() {
+		k, v, err := it.Next()
+		if err != nil {
+			return nil, err
+		}
+		if ks, _ := k.AsString(); strings.HasPrefix(ks, "ctn-") || l == nil {
+			l = v
+		}
 	}
 	var out [][]byte
 	li := l.ListIterator()
@@ -341,17 +348,68 @@ func rawCid(data []byte) cid.Cid {
 }
 
 // damageArtefact applies the abstract damage to real bytes (already base64-decoded).
-func damageArtefact(raw []byte, fmtName string, toks []sealedTok, dmg []ctnDamage) ([]byte, bool, error) {
+func damageArtefact(raw []byte, fmtName string, toks []sealedTok, dmg []ctnDamage) (out []byte, b64 bool, err error) {
+	// damages are applied one after the other; when an earlier one has left bytes that the surgery of a later one cannot
+	// address any more (an index beyond what is left), the later one is moot: the container is damaged as far as it got
+	cur := raw
+	for i := range dmg {
+		next, b, e := func() (n []byte, b bool, e error) {
+			defer func() {
+				if r := recover(); r != nil {
+					if i == 0 {
+						e = fmt.Errorf("damage surgery panicked: %v", r)
+					} else {
+						n, b, e = cur, false, nil
+					}
+				}
+			}()
+			return damageOne(cur, fmtName, toks, dmg[i:i+1], i)
+		}()
+		if e != nil {
+			return nil, false, e
+		}
+		cur, b64 = next, b64 || b
+	}
+	return cur, b64, nil
+}
+
+func damageOne(raw []byte, fmtName string, toks []sealedTok, dmg []ctnDamage, base int) ([]byte, bool, error) {
 	b64char := false
-	for _, d := range dmg {
+	// frame damage of a CBOR container persists when a later damage re-encodes the container
+	version, extra := "ctn-v1", false
+	if base > 0 && fmtName == "cbor" {
+		// frame damage applied before persists across the re-encoding below
+		if n, err := ipld.Decode(raw, dagcbor.Decode); err == nil && n.Kind() == datamodel.Kind_Map {
+			for it := n.MapIterator(); !it.Done(); {
+				k, _, err := it.Next()
+				if err != nil {
+					break
+				}
+				switch ks, _ := k.AsString(); {
+				case ks == "x":
+					extra = true
+				case strings.HasPrefix(ks, "ctn-"):
+					version = ks
+				}
+			}
+		}
+	}
+	for di0, d := range dmg {
+		di := di0 + base
 		switch fmtName {
 		case "car":
 			hEnd, blocks, err := parseCar(raw)
 			if err != nil {
+				if di > 0 {
+					continue // earlier damage made it unparsable: later damage is moot
+				}
 				return nil, false, err
 			}
 			k := d.K - 1
 			if d.Kind != "frame" && (k < 0 || k >= len(blocks)) {
+				if di > 0 {
+					continue
+				}
 				return nil, false, fmt.Errorf("no block %d", d.K)
 			}
 			switch d.C {
@@ -448,10 +506,11 @@ func damageArtefact(raw []byte, fmtName string, toks []sealedTok, dmg []ctnDamag
 			}
 			k := d.K - 1
 			if d.Kind != "frame" && (k < 0 || k >= len(entries)) {
+				if di > 0 {
+					continue
+				}
 				return nil, false, fmt.Errorf("no entry %d", d.K)
 			}
-			version := "ctn-v1"
-			extra := false
 			reenc := true
 			switch d.C {
 			case "databit":
